@@ -78,29 +78,8 @@ fn cond_shape(s: &Value, selftest: bool) -> Vec<Value> {
     };
     let pd = dummy.as_ref().ok().and_then(|dc| guarded(|| dummy_proof::<F, C, D>(dc, HashMap::new())).ok().and_then(|x| x.ok()));
     let mut out = vec![];
-    // the conditional circuit
-    let t0 = std::time::Instant::now();
-    let built = guarded(|| {
-        let mut bld = CircuitBuilder::<F, D>::new(CircuitConfig::standard_recursion_config());
-        let c = bld.add_virtual_bool_target_safe();
-        let pt0 = bld.add_virtual_proof_with_pis(&common);
-        let pt1 = bld.add_virtual_proof_with_pis(&common);
-        let vd0 = bld.add_virtual_verifier_data(common.config.fri_config.cap_height);
-        let vd1 = bld.add_virtual_verifier_data(common.config.fri_config.cap_height);
-        bld.conditionally_verify_proof::<C>(c, &pt0, &vd0, &pt1, &vd1, &common);
-        // re-expose the public inputs of the selected proof
-        let sel = bld.select_proof_with_pis(c, &pt0, &pt1);
-        bld.register_public_inputs(&sel.public_inputs);
-        let data: CircuitData<F, C, D> = bld.build::<C>();
-        (data, c, pt0, pt1, vd0, vd1)
-    });
-    let (outer, ct, pt0, pt1, vd0, vd1) = match built {
-        Ok(x) => x,
-        Err(p) => return skip(format!("conditional circuit build panic: {}", p.chars().take(140).collect::<String>())),
-    };
-    let constants = oracle::constants_by_row(&outer.prover_only, &outer.common);
-    // observation (not part of the property): does `conditionally_verify_proof_or_dummy` build for this inner shape?
-    // (it allocates the dummy verifier-data target with the OUTER configuration's cap height)
+    // `conditionally_verify_proof_or_dummy` for this inner shape (the dummy verifier-data target must have the INNER cap height):
+    // it must build, and accept iff (condition ? the given pair is valid : true)
     let mut or_dummy_rows: Vec<Value> = vec![];
     let or_dummy = if s["probe_or_dummy"].as_bool().unwrap_or(false) {
         let built_od = guarded(|| {
@@ -143,6 +122,33 @@ fn cond_shape(s: &Value, selftest: bool) -> Vec<Value> {
     } else {
         Value::Null
     };
+    if s["or_dummy_only"].as_bool().unwrap_or(false) {
+        let mut out = vec![json!({"id": id, "or_dummy": or_dummy, "inner_cap_height": common.config.fri_config.cap_height,
+            "shape": {"inner_degree_bits": common.degree_bits(), "or_dummy_only": true, "binding_bits": cfg.binding_bits()}})];
+        out.extend(or_dummy_rows);
+        return out;
+    }
+    // the conditional circuit
+    let t0 = std::time::Instant::now();
+    let built = guarded(|| {
+        let mut bld = CircuitBuilder::<F, D>::new(CircuitConfig::standard_recursion_config());
+        let c = bld.add_virtual_bool_target_safe();
+        let pt0 = bld.add_virtual_proof_with_pis(&common);
+        let pt1 = bld.add_virtual_proof_with_pis(&common);
+        let vd0 = bld.add_virtual_verifier_data(common.config.fri_config.cap_height);
+        let vd1 = bld.add_virtual_verifier_data(common.config.fri_config.cap_height);
+        bld.conditionally_verify_proof::<C>(c, &pt0, &vd0, &pt1, &vd1, &common);
+        // re-expose the public inputs of the selected proof
+        let sel = bld.select_proof_with_pis(c, &pt0, &pt1);
+        bld.register_public_inputs(&sel.public_inputs);
+        let data: CircuitData<F, C, D> = bld.build::<C>();
+        (data, c, pt0, pt1, vd0, vd1)
+    });
+    let (outer, ct, pt0, pt1, vd0, vd1) = match built {
+        Ok(x) => x,
+        Err(p) => return skip(format!("conditional circuit build panic: {}", p.chars().take(140).collect::<String>())),
+    };
+    let constants = oracle::constants_by_row(&outer.prover_only, &outer.common);
     out.push(json!({"id": id, "or_dummy": or_dummy, "inner_cap_height": common.config.fri_config.cap_height, "shape": {"inner_degree_bits": common.degree_bits(), "outer_degree_bits": outer.common.degree_bits(),
         "build_ms": t0.elapsed().as_millis() as u64, "dummy_circuit": dummy.is_ok(), "dummy_panic": dummy.as_ref().err(),
         "binding_bits": cfg.binding_bits(), "inner_pis": common.num_public_inputs, "layers": common.fri_params.reduction_arity_bits}}));
